@@ -40,6 +40,46 @@ _D37_FIXED = (
     "                    self._track_new_object(region_state, Object(**cached_obj), msg)\n"
 )
 
+STATE = "hippolyzer/lib/client/state.py"
+_A1_FIXED = (
+    "                if not obj:\n"
+    "                    # The orphan list was taken out of the orphanage above. The surviving\n"
+    "                    # avatar still names this local ID as its parent, so it stays an orphan.\n"
+    "                    region_state._track_orphan(child_id, local_id)\n"
+    "                continue\n"
+    "            self._kill_object_by_local_id(region_state, child_id)\n"
+)
+_A2_FIXED = (
+    "        fallback = None\n"
+    "        for region in self.regions:\n"
+    "            if region.handle != handle:\n"
+    "                continue\n"
+    "            # A dead region may linger under the same handle as the region that replaced it\n"
+    "            # (region restart, sim moved to another address.) Prefer the one that's alive.\n"
+    "            if region.is_alive:\n"
+    "                return region\n"
+    "            if fallback is None:\n"
+    "                fallback = region\n"
+    "        return fallback\n"
+)
+_A3_FIXED = (
+    "        if new_region_state is not None:\n"
+    "            if actually_updated_props:\n"
+    "                self._run_object_update_hooks(obj, actually_updated_props, update_type, msg)\n"
+    "            else:\n"
+    "                # Nothing changed, so there's nothing to tell the hooks about, but whoever\n"
+    "                # requested this object still got their answer.\n"
+    "                new_region_state.resolve_futures(obj, update_type)\n"
+)
+_A5_FIXED = (
+    "        for handle, region_mgr in tuple(self._region_managers.items()):\n"
+    "            # Tearing down the world tears down every region in it: clears the region's own\n"
+    "            # indices and cancels its pending requests. Normally calls back into\n"
+    "            # untrack_region_objects() itself, but only if the region still has its handle.\n"
+    "            region_mgr.clear()\n"
+    "            self.untrack_region_objects(handle)\n"
+)
+
 VARIANTS = [
     # ---- R1 ownership
     {"name": "R1 localid_lookup written in _handle_object_update", "file": OM, "expect": "C14.R1",
@@ -338,6 +378,43 @@ VARIANTS = [
             "            if data:\n                return data\n",
      "new": "        for cache in self.region_caches[:1]:\n            data = cache.lookup_object_data(local_id, crc)\n"
             "            if data:\n                return data\n"},
+    # ---- audit round: reverts of the fixes (inapplicable until the fix is committed) and their twins
+    {"name": "R6 exempt avatar child of an untracked killed parent not re-orphaned (fix reverted)", "file": OM, "expect": "C14.R6",
+     "old": _A1_FIXED, "new": "                continue\n            self._kill_object_by_local_id(region_state, child_id)\n"},
+    {"name": "P R6 re-orphaning with keyword arguments", "file": OM, "expect": "silent",
+     "old": "                    region_state._track_orphan(child_id, local_id)\n",
+     "new": "                    region_state._track_orphan(local_id=child_id, parent_id=local_id)\n"},
+    {"name": "R8 region_by_handle returns the first match dead or alive (fix reverted)", "file": STATE, "expect": "C14.R8",
+     "old": _A2_FIXED,
+     "new": "        for region in self.regions:\n            if region.handle == handle:\n                return region\n        return None\n"},
+    {"name": "P R8 region_by_handle with the dead match under another name", "file": STATE, "expect": "silent",
+     "old": _A2_FIXED,
+     "new": "        dead_match = None\n        for candidate in self.regions:\n            if candidate.handle == handle:\n"
+            "                if candidate.is_alive:\n                    return candidate\n"
+            "                dead_match = dead_match or candidate\n        return dead_match\n"},
+    {"name": "R4 unchanged reply leaves the request pending (fix reverted)", "file": OM, "expect": "C14.R4",
+     "old": _A3_FIXED,
+     "new": "        if actually_updated_props and new_region_state is not None:\n"
+            "            self._run_object_update_hooks(obj, actually_updated_props, update_type, msg)\n"},
+    {"name": "P R4 unchanged-reply branch first", "file": OM, "expect": "silent",
+     "old": _A3_FIXED,
+     "new": "        if new_region_state is not None:\n            if not actually_updated_props:\n"
+            "                new_region_state.resolve_futures(obj, update_type)\n            else:\n"
+            "                self._run_object_update_hooks(obj, actually_updated_props, update_type, msg)\n"},
+    {"name": "R2 unloaded region's avatars stay in the avatar index (fix reverted)", "file": OM, "expect": "C14.R2",
+     "old": "                # Avatars are indexed separately, that index has to forget the object too\n"
+            "                self._avatar_objects.pop(obj.FullID, None)\n", "new": ""},
+    {"name": "P R2 avatar index removal only for avatars", "file": OM, "expect": "silent",
+     "old": "                # Avatars are indexed separately, that index has to forget the object too\n"
+            "                self._avatar_objects.pop(obj.FullID, None)\n",
+     "new": "                if obj.PCode == PCode.AVATAR:\n                    self._avatar_objects.pop(obj.FullID, None)\n"},
+    {"name": "R8 world teardown does not clear the region managers (fix reverted)", "file": OM, "expect": "C14.R8",
+     "old": _A5_FIXED,
+     "new": "        for handle in tuple(self._region_managers.keys()):\n            self.untrack_region_objects(handle)\n"},
+    {"name": "P R8 world teardown clears the managers in a loop of their own", "file": OM, "expect": "silent",
+     "old": _A5_FIXED,
+     "new": "        for manager in tuple(self._region_managers.values()):\n            manager.clear()\n"
+            "        for handle in tuple(self._region_managers.keys()):\n            self.untrack_region_objects(handle)\n"},
     # ---- documented limits
     {"name": "X missing_locals bookkeeping dropped (not observed by the statement)", "file": OM, "expect": "miss",
      "old": "        self.missing_locals -= {obj.LocalID}\n", "new": ""},
